@@ -340,6 +340,16 @@ func (fr *Frame) safetyObl(kind, reach, goal string, p token.Pos, what string) {
 	if p.IsValid() {
 		txt = what + ": " + fr.srcLine(p)
 	}
+	if fr.top && fr.con != nil && fr.con.PanicsOnly != nil {
+		// panics-only-if C also covers the implicit panics (index, nil, conversion): the operation may fail
+		// when C held on entry; execution continues only if it did not fail
+		env := fr.newEnv(&fr.entry)
+		if c, err := env.evalBool(fr.con.PanicsOnly.E); err == nil {
+			fr.vc.oblig(kind+fr.suffix, "", reach, sOr(goal, c), fr.pos(p), fr.safetyProps, txt)
+			fr.vc.assert(sImp(reach, goal))
+			return
+		}
+	}
 	fr.vc.oblig(kind+fr.suffix, "", reach, goal, fr.pos(p), fr.safetyProps, txt)
 }
 
